@@ -119,7 +119,7 @@ func (c *Ctx) Check(cond bool, rule, construct string, pos token.Pos, okMsg, bad
 	return cond
 }
 
-func (c *Ctx) Note(f string, a ...any)   { c.Notes = append(c.Notes, fmt.Sprintf(f, a...)) }
+func (c *Ctx) Note(f string, a ...any)    { c.Notes = append(c.Notes, fmt.Sprintf(f, a...)) }
 func (c *Ctx) Assumes(f string, a ...any) { c.Assume = append(c.Assume, fmt.Sprintf(f, a...)) }
 
 // Finish applies instance floors and positive-example liveness.
